@@ -280,3 +280,36 @@ Theorem cosine_drift_independent_of_time_origin : forall n k t s dt, (dt <> 0)%R
   (PI / INR n * ((s + INR t * dt) / dt + / 2) * INR k = ProofsR.phase n t k + PI / INR n * (s / dt) * INR k)%R.
 Proof. exact ProofsR.phase_from_times. Qed.
 Print Assumptions cosine_drift_independent_of_time_origin.
+
+(* ---------------------------------------------------------------- (9) paradigms in arbitrary listing order *)
+Close Scope R_scope.
+Open Scope Q_scope.
+(* the regressor does not depend on the order in which the events are listed (any grid, kernel, amplitudes):
+   onset, duration and amplitude of an event travel together *)
+Theorem main_regressor_independent_of_listing_order : forall g fts h evs evs',
+  Permutation.Permutation evs evs' -> leq (main_regressor g fts h evs) (main_regressor g fts h evs').
+Proof. exact main_regressor_perm. Qed.
+Print Assumptions main_regressor_independent_of_listing_order.
+
+(* _convolve_regressors: the events of a condition are selected as whole (onset, duration, amplitude) records;
+   re-listing the paradigm permutes them, events of other conditions do not enter *)
+Theorem condition_events_selected_as_records : forall c par par',
+  Permutation.Permutation par par' -> Permutation.Permutation (cond_events c par) (cond_events c par').
+Proof. exact cond_events_perm. Qed.
+Print Assumptions condition_events_selected_as_records.
+
+Theorem condition_regressor_independent_of_listing_order_and_other_conditions : forall g fts h c par par' other,
+  Permutation.Permutation par par' -> (forall p, In p other -> String.eqb (fst p) c = false) ->
+  leq (main_regressor g fts h (cond_events c (par ++ other))) (main_regressor g fts h (cond_events c par')).
+Proof.
+  intros g fts h c par par' other P H. rewrite (cond_events_other c par other H).
+  apply main_regressor_perm. apply cond_events_perm. exact P.
+Qed.
+Print Assumptions condition_regressor_independent_of_listing_order_and_other_conditions.
+
+(* what the theorem excludes: pairing the chronologically sorted onsets with the amplitudes in listing order *)
+Example sorted_onsets_unsorted_amplitudes_differs :
+  let g := hr_grid ft5 1 (-8 # 1) in
+  qlist_eqb (main_regressor g ft5 [1] [(6, 0, 3); (2, 0, 1)]) (main_regressor g ft5 [1] [(2, 0, 3); (6, 0, 1)]) = false /\
+  qlist_eqb (main_regressor g ft5 [1] [(6, 0, 3); (2, 0, 1)]) (main_regressor g ft5 [1] [(2, 0, 1); (6, 0, 3)]) = true.
+Proof. vm_compute. auto. Qed.
